@@ -15,8 +15,10 @@
      SvcRequest     ... and then calls RequestTx: Server.RequestTx stores the callback list and sends getdata in batches of
                     MaxH hashes to every peer.  (SplitLookup = TRUE keeps these two critical sections apart, as in the code.)
      Start          tryStartServices: IsInSync -> the services are started (once)
-   plus the environment: peers send payloads (any order, duplicates), push transactions nobody asked for, answer getdata
-   with the transactions they hold (unless mute).
+   plus the peers: uni.script[p] is what peer p sends on its connection, in order ("x" a payload, "t" a transaction nobody asked
+   for, "g" a getdata for a payload); everything is on its way from the start, so that the interleaving of the node's reader
+   goroutines (one per connection), its transaction loops and the service's event loop is what TLC explores.  Answers to the
+   node's getdata are appended behind the script of the peer that answers (unless it is mute).
 
    Named deviations (TLC must refute each against the abstract predicates of ConsNet):
      BugDeliverTwice     the duplicate check in front of the handler is skipped
@@ -29,48 +31,41 @@
                          statement asks for) *)
 EXTENDS Integers, FiniteSets, Sequences, TLC, ConsNet
 
-CONSTANTS Peers, X, Cls, Req, Named, T, BadCopy, Holds, Mute, MaxH, MaxSend, MaxPush, GarbagePeers,
+CONSTANTS Peers, X, Cls, Req, Named, BadCopy, MaxH, Universes,
           BugDeliverTwice, BugRelaySenderOnly, BugTruncate, BugDropUnsolicited, BugStartBeforeSync, SplitLookup
 
 VARIABLES synced, started, closed, inq, pool, dcnt, told, svcq, mem, txin, cb, have, pc, miss, want, asked, todo,
-          rcv, offered, nsend, npush, served, reqd
+          rcv, offered, served, uni
 vars == <<synced, started, closed, inq, pool, dcnt, told, svcq, mem, txin, cb, have, pc, miss, want, asked, todo,
-          rcv, offered, nsend, npush, served, reqd>>
+          rcv, offered, served, uni>>
 
-Init == /\ synced = FALSE /\ started = FALSE /\ closed = {} /\ inq = [p \in Peers |-> <<>>] /\ pool = {}
+\* the universe of a behaviour never changes: uni = [holds, mute, script] chosen from the constant set Universes
+Holds == uni.holds
+Mute == uni.mute
+
+XM(x) == [k |-> "x", x |-> x]
+TM(t) == [k |-> "t", t |-> t, ok |-> t \notin BadCopy]
+GM(x) == [k |-> "g", x |-> x]
+
+Init == /\ uni \in Universes
+        /\ synced = FALSE /\ started = FALSE /\ closed = {} /\ inq = [p \in Peers |-> uni.script[p]] /\ pool = {}
         /\ dcnt = [x \in X |-> 0] /\ told = {} /\ svcq = <<>> /\ mem = {} /\ txin = {} /\ cb = {} /\ have = {}
         /\ pc = "idle" /\ miss = {} /\ want = {} /\ asked = [p \in Peers |-> {}] /\ todo = [p \in Peers |-> {}]
-        /\ rcv = {} /\ offered = {} /\ nsend = 0 /\ npush = 0 /\ served = {} /\ reqd = {}
+        /\ rcv = {} /\ offered = {} /\ served = {}
 
 Live == Peers \ closed
 
-(* ------------------------------------------------------------------ environment *)
-SendX(p, x) == /\ p \in Live /\ nsend < MaxSend
-               /\ (Cls[x] = "bad") => p \in GarbagePeers       \* honest connections relay verified payloads only
-               /\ inq' = [inq EXCEPT ![p] = Append(@, [k |-> "x", x |-> x])]
-               /\ nsend' = nsend + 1
-               /\ UNCHANGED <<synced, started, closed, pool, dcnt, told, svcq, mem, txin, cb, have, pc, miss, want, asked, todo, rcv, offered, npush, served, reqd>>
-
-PushTx(p, t) == /\ p \in Live /\ t \in Holds[p] /\ npush < MaxPush
-                /\ inq' = [inq EXCEPT ![p] = Append(@, [k |-> "t", t |-> t, ok |-> t \notin BadCopy])]
-                /\ npush' = npush + 1
-                /\ UNCHANGED <<synced, started, closed, pool, dcnt, told, svcq, mem, txin, cb, have, pc, miss, want, asked, todo, rcv, offered, nsend, served, reqd>>
-
+(* ------------------------------------------------------------------ the peers answer the node's getdata *)
 Answer(p, t) == /\ p \in Live /\ p \notin Mute /\ t \in todo[p] /\ t \in Holds[p]
-                /\ inq' = [inq EXCEPT ![p] = Append(@, [k |-> "t", t |-> t, ok |-> t \notin BadCopy])]
+                /\ inq' = [inq EXCEPT ![p] = Append(@, TM(t))]
                 /\ todo' = [todo EXCEPT ![p] = @ \ {t}]
-                /\ UNCHANGED <<synced, started, closed, pool, dcnt, told, svcq, mem, txin, cb, have, pc, miss, want, asked, rcv, offered, nsend, npush, served, reqd>>
-
-AskX(p, x) == /\ p \in Live /\ <<p, x>> \notin reqd /\ <<p, x>> \in told
-              /\ inq' = [inq EXCEPT ![p] = Append(@, [k |-> "g", x |-> x])]
-              /\ reqd' = reqd \cup {<<p, x>>}
-              /\ UNCHANGED <<synced, started, closed, pool, dcnt, told, svcq, mem, txin, cb, have, pc, miss, want, asked, todo, rcv, offered, nsend, npush, served>>
+                /\ UNCHANGED <<synced, started, closed, pool, dcnt, told, svcq, mem, txin, cb, have, pc, miss, want, asked, rcv, offered, served>>
 
 (* ------------------------------------------------------------------ the node *)
-Start == /\ ~started
-         /\ \/ /\ ~synced /\ synced' = TRUE /\ started' = TRUE                    \* IsInSync became true: tryStartServices
-            \/ /\ ~synced /\ BugStartBeforeSync /\ synced' = FALSE /\ started' = TRUE
-         /\ UNCHANGED <<closed, inq, pool, dcnt, told, svcq, mem, txin, cb, have, pc, miss, want, asked, todo, rcv, offered, nsend, npush, served, reqd>>
+Start == /\ ~started /\ ~synced
+         /\ \/ synced' = TRUE /\ started' = TRUE                            \* IsInSync became true: tryStartServices
+            \/ BugStartBeforeSync /\ synced' = FALSE /\ started' = TRUE
+         /\ UNCHANGED <<closed, inq, pool, dcnt, told, svcq, mem, txin, cb, have, pc, miss, want, asked, todo, rcv, offered, served>>
 
 HandleX(p, m) ==
     LET x == m.x IN
@@ -85,14 +80,14 @@ HandleX(p, m) ==
             ELSE /\ pool' = pool \cup {x}
                  /\ IF Cls[x] = "ok"
                     THEN /\ dcnt' = [dcnt EXCEPT ![x] = @ + 1]
-                         /\ svcq' = IF started THEN Append(svcq, [k |-> "x", x |-> x]) ELSE svcq
+                         /\ svcq' = IF started THEN Append(svcq, XM(x)) ELSE svcq
                     ELSE UNCHANGED <<dcnt, svcq>>
                  /\ told' = told \cup (IF BugRelaySenderOnly THEN {<<p, x>>} ELSE {<<q, x>> : q \in Live})
                  /\ UNCHANGED closed
 
 HandleT(p, m) ==
     /\ inq' = [inq EXCEPT ![p] = Tail(@)]
-    /\ offered' = offered \cup {[t |-> m.t, ok |-> m.ok]}
+    /\ offered' = offered \cup {[t |-> m.t, ok |-> m.ok, aft |-> (pc = "wait")]}
     /\ IF m.t \in mem \/ \E e \in txin : e.t = m.t
        THEN UNCHANGED txin
        ELSE txin' = txin \cup {[t |-> m.t, ok |-> m.ok]}
@@ -104,16 +99,16 @@ HandleG(p, m) ==
 Handle(p) ==
     /\ p \in Live /\ inq[p] # <<>>
     /\ LET m == Head(inq[p]) IN
-       CASE m.k = "x" -> HandleX(p, m) /\ UNCHANGED <<synced, started, mem, txin, cb, have, pc, miss, want, asked, todo, offered, nsend, npush, served, reqd>>
-         [] m.k = "t" -> HandleT(p, m) /\ UNCHANGED <<synced, started, closed, pool, dcnt, told, svcq, mem, cb, have, pc, miss, want, asked, todo, rcv, nsend, npush, served, reqd>>
-         [] m.k = "g" -> HandleG(p, m) /\ UNCHANGED <<synced, started, closed, pool, dcnt, told, svcq, mem, txin, cb, have, pc, miss, want, asked, todo, rcv, offered, nsend, npush, reqd>>
+       CASE m.k = "x" -> HandleX(p, m) /\ UNCHANGED <<synced, started, mem, txin, cb, have, pc, miss, want, asked, todo, offered, served>>
+         [] m.k = "t" -> HandleT(p, m) /\ UNCHANGED <<synced, started, closed, pool, dcnt, told, svcq, mem, cb, have, pc, miss, want, asked, todo, rcv, served>>
+         [] m.k = "g" -> HandleG(p, m) /\ UNCHANGED <<synced, started, closed, pool, dcnt, told, svcq, mem, txin, cb, have, pc, miss, want, asked, todo, rcv, offered>>
 
 TxLoop(e) ==
     /\ e \in txin
     /\ svcq' = IF e.t \in cb /\ started THEN Append(svcq, [k |-> "t", t |-> e.t, ok |-> e.ok]) ELSE svcq
     /\ mem' = IF e.ok /\ ~(BugDropUnsolicited /\ e.t \notin cb) THEN mem \cup {e.t} ELSE mem
     /\ txin' = txin \ {e}
-    /\ UNCHANGED <<synced, started, closed, inq, pool, dcnt, told, cb, have, pc, miss, want, asked, todo, rcv, offered, nsend, npush, served, reqd>>
+    /\ UNCHANGED <<synced, started, closed, inq, pool, dcnt, told, cb, have, pc, miss, want, asked, todo, rcv, offered, served>>
 
 \* Server.RequestTx: callback list = everything asked for; getdata to every peer, MaxH hashes per message
 Request(ms) ==
@@ -143,33 +138,31 @@ SvcTake ==
                  ELSE UNCHANGED <<pc, cb>>
               /\ UNCHANGED <<want, asked, todo>>
          [] OTHER -> UNCHANGED <<pc, have, miss, cb, want, asked, todo>>
-    /\ UNCHANGED <<synced, started, closed, inq, pool, dcnt, told, mem, txin, rcv, offered, nsend, npush, served, reqd>>
+    /\ UNCHANGED <<synced, started, closed, inq, pool, dcnt, told, mem, txin, rcv, offered, served>>
 
 SvcRequest ==
     /\ pc = "looked"
     /\ pc' = "wait" /\ Request(miss)
-    /\ UNCHANGED <<synced, started, closed, inq, pool, dcnt, told, svcq, mem, txin, have, miss, rcv, offered, nsend, npush, served, reqd>>
+    /\ UNCHANGED <<synced, started, closed, inq, pool, dcnt, told, svcq, mem, txin, have, miss, rcv, offered, served>>
 
-Env == \/ \E p \in Peers, x \in X : SendX(p, x)
-       \/ \E p \in Peers, t \in T : PushTx(p, t)
-       \/ \E p \in Peers, t \in T : Answer(p, t)
-       \/ \E p \in Peers, x \in X : AskX(p, x)
+Env == \E p \in Peers, t \in Named : Answer(p, t)
 Node == Start \/ (\E p \in Peers : Handle(p)) \/ (\E e \in txin : TxLoop(e)) \/ SvcTake \/ SvcRequest
-Next == Env \/ Node
+Next == (Env \/ Node) /\ UNCHANGED uni
 Spec == Init /\ [][Next]_vars
 
 (* ------------------------------------------------------------------ Impl => Abstract *)
-TypeOK == /\ pc \in {"idle", "looked", "wait", "resp", "refused"} /\ pool \subseteq X /\ mem \subseteq T
+TypeOK == /\ pc \in {"idle", "looked", "wait", "resp", "refused"} /\ pool \subseteq X /\ mem \subseteq Named
 
 \* nothing is in flight and nobody owes an answer
-Quiescent == /\ \A p \in Live : inq[p] = <<>>
+Quiescent == /\ started
+             /\ \A p \in Live : inq[p] = <<>>
              /\ svcq = <<>> /\ txin = {} /\ pc # "looked"
              /\ \A p \in Live : p \in Mute \/ todo[p] \cap Holds[p] = {}
-             /\ \A p \in Live, x \in X : <<p, x>> \in reqd => TRUE
 
 Def(x) == [cls |-> Cls[x], start |-> 0, end |-> 1]
 GoodOff == {e.t : e \in {e \in offered : e.ok}}
 BadOff  == {e.t : e \in {e \in offered : ~e.ok}}
+BadAft  == {e.t : e \in {e \in offered : ~e.ok /\ e.aft}}       \* bad copies that arrived while the node was waiting for them
 \* payloads that arrived on a connection while the node was synchronised (rcv is only filled then)
 Arrived == {r[2] : r \in rcv}
 SendersOf(x) == {r[1] : r \in {r \in rcv : r[2] = x}}
@@ -186,9 +179,6 @@ AtRest == Quiescent =>
         /\ \A x \in Arrived : MustDeliver(Def(x), 0, 0) => DeliveredOnce(dcnt[x])
         /\ \A x \in Arrived : Cls[x] # "bad" => Relayed(x, Live \ SendersOf(x), told)
         /\ (pc \in {"wait", "resp", "refused"} /\ want # {}) => \A p \in Live : PeerAskedExactly(asked[p], want)
-        /\ (dcnt[Req] > 0 /\ started /\ AllGood(Named, {}, GoodOff, BadOff)) => pc = "resp"
-        /\ (dcnt[Req] > 0 /\ started /\ SomeOnlyBad(Named, {}, GoodOff, BadOff)) => pc = "refused"
-        /\ \A k \in reqd : (k[1] \in Live /\ k[2] \in pool) => k \in served
-
-Constr == nsend <= MaxSend
+        /\ (dcnt[Req] > 0 /\ AllGood(Named, {}, GoodOff, BadOff)) => pc = "resp"
+        /\ (dcnt[Req] > 0 /\ SomeOnlyBad(Named, {}, GoodOff, BadAft)) => pc = "refused"
 =============================================================================
